@@ -566,3 +566,130 @@ func c06R3(c *Ctx, r *Report) {
 		r.Check(ok, rule, tft.Name(), "case *ast.ReferenceType keeps the & / &' distinction", c.pos(tft.Decl.Pos()), "reference type nodes are no longer mapped to ReferenceType with the node's mutability")
 	}
 }
+
+func init() {
+	lateInits = append(lateInits, func() {
+		props["C06"].Quick = append(props["C06"].Quick, c06R4)
+		props["C01"].Quick = append(props["C01"].Quick, c06R4)
+	})
+}
+
+// C06.R4: a declared name owns fresh storage. (`let m := c as P` must copy: binding m to the storage of a
+// const or of a &T referent makes writes to m change the immutable value; by-value semantics of structs/arrays.)
+func c06R4(c *Ctx, r *Report) {
+	const rule = "C06.R4"
+	r.Describe(rule, "mir/gen: every binding of a symbol to a storage slot (slots[sym] = v) binds it to a fresh allocation (emitAlloca / emitAllocaInEntry / ferret_alloc box), also through helper parameters")
+	allocFns := map[*types.Func]bool{}
+	for _, n := range []string{"emitAlloca", "emitAllocaInEntry"} {
+		if f := c.LookupFn(pkgMIRGen, "(*functionBuilder)."+n); f != nil {
+			allocFns[f.Obj] = true
+		}
+	}
+	if !r.Anchor(rule, len(allocFns) == 2, "mir/gen emitAlloca / emitAllocaInEntry") {
+		return
+	}
+	fns := c.AllFns(pkgMIRGen)
+	var fresh func(fn *Fn, e ast.Expr, depth int) (bool, string)
+	fresh = func(fn *Fn, e ast.Expr, depth int) (bool, string) {
+		info := fn.Info()
+		e = ast.Unparen(e)
+		if cl, ok := e.(*ast.CallExpr); ok {
+			if f := callee(info, cl); f != nil && allocFns[f] {
+				return true, ""
+			}
+			return false, "result of " + exprStr(cl.Fun)
+		}
+		o := objOf(info, e)
+		if o == nil {
+			return false, exprStr(e)
+		}
+		if isParamOf(fn, o) {
+			if depth >= 2 {
+				return false, "parameter " + o.Name() + " (call depth)"
+			}
+			idx := -1
+			sig := fn.Obj.Type().(*types.Signature)
+			for i := 0; i < sig.Params().Len(); i++ {
+				if sig.Params().At(i) == o {
+					idx = i
+				}
+			}
+			nCalls := 0
+			for _, caller := range fns {
+				for _, call := range callsIn(caller.Decl.Body, true) {
+					if isCallTo(caller.Info(), call, fn.Obj) && idx < len(call.Args) {
+						nCalls++
+						if ok, why := fresh(caller, call.Args[idx], depth+1); !ok {
+							return false, "argument " + exprStr(call.Args[idx]) + " of " + caller.Name() + ": " + why
+						}
+					}
+				}
+			}
+			return nCalls > 0, "no caller"
+		}
+		ds := localDefs(fn)[o]
+		if len(ds) == 0 {
+			return false, "no definition of " + o.Name()
+		}
+		for _, d := range ds {
+			// box := b.gen.nextValueID() followed by a ferret_alloc call with Result: box
+			if cl, ok := ast.Unparen(d).(*ast.CallExpr); ok && strings.HasSuffix(exprStr(cl.Fun), ".nextValueID") {
+				isBox := false
+				ast.Inspect(fn.Decl.Body, func(x ast.Node) bool {
+					lit, ok := x.(*ast.CompositeLit)
+					if !ok {
+						return true
+					}
+					res, tgt := false, false
+					for _, el := range lit.Elts {
+						if kv, ok := el.(*ast.KeyValueExpr); ok {
+							if exprStr(kv.Key) == "Result" && objOf(info, kv.Value) == o {
+								res = true
+							}
+							if exprStr(kv.Key) == "Target" {
+								if v := constOf(info, kv.Value); v != nil {
+									if s, _ := strOf(v); s == "ferret_alloc" {
+										tgt = true
+									}
+								}
+							}
+						}
+					}
+					if res && tgt {
+						isBox = true
+					}
+					return true
+				})
+				if isBox {
+					continue
+				}
+				return false, "value id that is not an allocation"
+			}
+			if ok, why := fresh(fn, d, depth); !ok {
+				return false, why
+			}
+		}
+		return true, ""
+	}
+	n := 0
+	for _, fn := range fns {
+		info := fn.Info()
+		ast.Inspect(fn.Decl.Body, func(x ast.Node) bool {
+			as, ok := x.(*ast.AssignStmt)
+			if !ok || len(as.Lhs) != 1 || len(as.Rhs) != 1 {
+				return true
+			}
+			ix, ok := as.Lhs[0].(*ast.IndexExpr)
+			if !ok || !(strings.HasSuffix(exprStr(ix.X), ".slots") || strings.HasSuffix(exprStr(ix.X), ".tempSlots")) {
+				return true
+			}
+			_ = info
+			n++
+			ok2, why := fresh(fn, as.Rhs[0], 0)
+			r.Check(ok2, rule, fn.Name(), "binding "+exprStr(as.Lhs[0])+" = "+exprStr(as.Rhs[0])+" is a fresh allocation", c.pos(as.Pos()),
+				"a name is bound to storage that is not its own ("+why+"): when the initialiser is an existing value (identity cast of a const, dereference of a &T) the new variable aliases it, so assigning to the variable modifies the immutable original and a by-value copy is lost")
+			return true
+		})
+	}
+	r.Floor(rule, n, 5, "slot bindings in mir/gen")
+}
